@@ -389,9 +389,6 @@ fn boundary_cases() -> Vec<String> {
                 if ip.is_empty() && (fr.is_empty() || fr == ".") {
                     continue;
                 }
-                if fr == "." && !ex.is_empty() {
-                    continue;
-                }
                 let t = format!("{ip}{fr}{ex}");
                 let c: String = t.chars().filter(|c| *c != '_').collect();
                 for minus in ["", "-", "- "] {
@@ -407,6 +404,23 @@ fn boundary_cases() -> Vec<String> {
                 }
             }
         }
+    }
+    // doubles that need all 17 significant digits, at ordinary and extreme magnitudes, the largest
+    // and smallest normal and subnormal values, a tie that must round to even
+    for t in [
+        "1.7976931348623157e308", "2.2250738585072014e-308", "4.9406564584124654e-324", "5e-324", "2.2250738585072011e-308",
+        "1.2345678901234567e20", "1.2345678901234567e-7", "1.2345678901234567", "0.30000000000000004", "9007199254740993.0",
+        "9007199254740992.0", "123456789012345678.0", "8.41e21", "1e23", "6.02214076e23", "1.0000000000000002", "0.1", "3.141592653589793238462643383279",
+        "1_0.2_5e+1_0", "00012.5000", "1e0", "1E-0",
+    ] {
+        let c: String = t.chars().filter(|c| *c != '_').collect();
+        for minus in ["", "-", "- "] {
+            for pos in POSITIONS {
+                v.push(format!("L|{pos}|float|{minus}|{t}|{c}"));
+            }
+            v.push(format!("L|init|ifloat|{minus}|{t}im|{c}"));
+        }
+        v.push(format!("L|init|tfloat||{t}ns|{c}|ns"));
     }
     for b in ["true", "false"] {
         for pos in ["init", "assign"] {
